@@ -423,7 +423,7 @@ theorem derva_safe (v : View) (a : Addr) (size align : Nat) (hp : isPow2 align =
 theorem dervaSlice_safe (v : View) (a : Addr) (size align len : Nat) (hp : isPow2 align = true) :
     OkOrErr (v.dervaSlice a size align len) ∧
     ∀ r, v.dervaSlice a size align len = .ok r → RefOK v.img r ∧ r.len = size * len ∧ r.align = align := by
-  unfold View.dervaSlice
+  rw [dervaSlice_unfold]
   split
   · exact ⟨okOrErr_err _, fun r hr => by cases hr⟩
   · rcases at_okOrErr v a (size * len) align hp with ⟨s, h⟩ | ⟨e, h⟩
@@ -1031,7 +1031,7 @@ theorem tableTryFrom_ok_iff (v : View) (idx recSize : Nat) (hr : recSize < 42949
     · rw [if_neg hm]
       have hm' : size % recSize = 0 := by omega
       have e : recSize * (size / recSize) = size := Nat.mul_div_cancel' (Nat.dvd_of_mod_eq_zero hm')
-      unfold View.dervaSlice
+      rw [dervaSlice_unfold]
       rw [e, if_neg (by omega)]
       constructor
       · intro h
@@ -1054,7 +1054,7 @@ theorem tableTryFrom_errors (v : View) (idx recSize : Nat) :
   rw [h]
   simp only
   rw [if_neg (by omega)]
-  unfold View.dervaSlice
+  rw [dervaSlice_unfold]
   split
   · -- recSize * (size / recSize) ≤ size < 2^32
     rename_i ho
